@@ -681,6 +681,12 @@ func (p *RPCCompiler) buildRequiredFieldsMessage(inputMessage Message, rpcMessag
 
 	representations := representationsValue.Array()
 	for _, representation := range representations {
+		// The representations can contain several entity types, only the ones of the entity type
+		// this required field belongs to provide a context element.
+		if !isAllowedForTypename(keyField.Message, representation) {
+			continue
+		}
+
 		element := contextList.NewElement()
 		msg := element.Message()
 
